@@ -25,7 +25,8 @@ RULE = ('every legal DSL module program up to the tier size (statements: param, 
         'distinct = distinct (program, canonical variable state); plus tree-valued variables: '
         'argument shape {flat, nested, list, FrozenDict} x write {none, same, full, partial, deep} '
         'x {init, init_with_output, apply with the variable present/absent} x caller-owned '
-        'filter object {list, set, tuple, str, True, False, ...} x capture_intermediates')
+        'filter object {list, set, tuple, str, True, False, ...} x capture_intermediates; '
+        'apply x3 on a bound module (field / setup / Sequential submodules x method x mutable)')
 ASSUMPTIONS = [
   'programs are those expressible in the DSL; data are small integers in float32',
   'leaf arrays are immutable jax arrays: sharing leaves between input and output is not aliasing',
@@ -78,6 +79,7 @@ def units(tier, seed):
   # structured arguments used as tree-valued variables; filter objects passed by the caller
   for shape in TREE_SHAPES:
     us.append(dict(tree=shape))
+  us.append(dict(bound=True))
   return us
 
 
@@ -127,6 +129,9 @@ def run_unit(unit):
   res = core.new_result()
   if 'tree' in unit:
     _run_tree(res, unit['tree'])
+    return res
+  if 'bound' in unit:
+    _run_bound(res)
     return res
   for cls, dl in unit['progs']:
     d = dsl.fromlist(dl)
@@ -548,6 +553,88 @@ def _tree_module(write):
           v.value = {'b': {k0: bump(b[k0])}}
       return x * w + cur['a']
   return TreeVar()
+
+
+def _run_bound(res):
+  """apply / init called on a module that is already bound (Module.bind) are the same pure
+  functions: they use the variables passed in, leave the bound module and its variables alone,
+  and repeat. Submodules as dataclass fields / created in setup / in a Sequential x method x
+  mutable filter x histories of three calls."""
+  import jax
+  import jax.numpy as jnp
+  import flax.linen as nn
+
+  class Inner(nn.Module):
+    @nn.compact
+    def __call__(self, x):
+      w = self.param('w', lambda k: jnp.asarray([1.0, 2.0], jnp.float32))
+      c = self.variable('cnt', 'n', lambda: jnp.zeros((), jnp.float32))
+      if self.is_mutable_collection('cnt'):
+        c.value = c.value + 1.0
+      self.sow('intermediates', 's', x)
+      return x * w + c.value
+
+  class OuterF(nn.Module):
+    inner: nn.Module = None
+
+    def __call__(self, x):
+      return self.inner(x) + 1.0
+
+    def other(self, x):
+      return self.inner(x) * 2.0
+
+  class OuterS(nn.Module):
+    def setup(self):
+      self.inner = Inner()
+
+    def __call__(self, x):
+      return self.inner(x) + 1.0
+
+    def other(self, x):
+      return self.inner(x) * 2.0
+
+  makers = {'field': lambda: OuterF(inner=Inner()), 'setup': lambda: OuterS(),
+            'sequential': lambda: nn.Sequential([Inner(), Inner()])}
+  x = jnp.asarray([1.0, -1.0], jnp.float32)
+  for mname, mk in makers.items():
+    A = mk().init(jax.random.key(0), x)
+    B = jax.tree.map(lambda a: a * 3.0 + 5.0, A)
+    for method in ((None,) if mname == 'sequential' else (None, 'other')):
+      for fname, f in (('false', False), ('cnt', ['cnt']), ('true', True),
+                       ('deny', nn.DenyList('params'))):
+        for bind_mut in (False, True):
+          key = f'bound|{mname}|{method}|{fname}|{bind_mut}'
+          case = dict(module=mname, method=method, mutable=fname, bind_mutable=bind_mut)
+          kw = {} if method is None else dict(method=method)
+          res['evals'] += 5
+          res['transitions'] += 3
+          ref = mk().apply(B, x, mutable=f, **kw)
+          bound = mk().bind(A, mutable=bind_mut)
+          a_snap = canon_tree(A, True)
+          b_snap = canon_tree(B, True)
+          bv_snap = canon_tree(jax.tree.map(np.asarray, dict(bound.variables)), True)
+          outs = []
+          try:
+            for _ in range(3):
+              outs.append(bound.apply(B, x, mutable=f, **kw))
+          except Exception as e:  # noqa
+            core.violation(res, 'bound-raises|' + key, f'{type(e).__name__}: {e}'[:300], case)
+            continue
+          for i, r in enumerate(outs):
+            if canon_tree(r, True) != canon_tree(ref, True):
+              core.violation(res, f'bound-apply|{key}|call{i}',
+                             'apply on a bound module does not return what apply on an unbound '
+                             'module returns for the same variables', case,
+                             observed=jsonable(np_tree(r)), expected=jsonable(np_tree(ref)))
+              break
+          if canon_tree(A, True) != a_snap or canon_tree(B, True) != b_snap:
+            core.violation(res, 'bound-inputs|' + key, 'variables passed to bind / apply changed', case)
+          if canon_tree(jax.tree.map(np.asarray, dict(bound.variables)), True) != bv_snap:
+            core.violation(res, 'bound-module|' + key,
+                           'apply changed the variables of the bound module it was called on', case)
+          core.outcome(res, 'bound:ok')
+          res['nontrivial'].append(core.h(key))
+  res['samples'].append(dict(kind='bound'))
 
 
 def _dict_ids(t, out=None):
